@@ -539,3 +539,14 @@ V("c05-align-no-truncate", "C05", TX7, "        self.truncate(width)\n        ex
 V("c05-getitem-zero-wraps", "C05", TX7, "            if slice < 0:\n                slice += len(self.plain)\n", "            if slice <= 0:\n                slice += len(self.plain)\n", "R5.9")
 V("c19-cr-test-negated", "C19", AN, '                if "\\r" in plain_text:\n', '                if "\\r" not in plain_text:\n', "R19.15")
 V("c19-cr-rsplit-swapped", "C19", AN, '                    plain_text = plain_text.rsplit("\\r", 1)[-1]\n', '                    plain_text = plain_text.rsplit("\\r", 1)[0]\n', "R19.15")
+
+# ---- round 8 ---------------------------------------------------------------------
+V("c04-param-split-all", "C04", "rich/markup.py", '        text, equals, parameters = tag_text.partition("=")\n        yield start, None, _Tag(text, parameters if equals else None)\n', '        text, *parameters = tag_text.split("=")\n        yield start, None, _Tag(text, parameters[0] if parameters else None)\n', "R4.8")
+V("c04-benign-param-split-once", "C04", "rich/markup.py", '        text, equals, parameters = tag_text.partition("=")\n        yield start, None, _Tag(text, parameters if equals else None)\n', '        text, *parameters = tag_text.split("=", 1)\n        yield start, None, _Tag(text, parameters[0] if parameters else None)\n', None)
+V("c19-print-if-output", "C19", "rich/file_proxy.py", "                console.print(output, markup=False, emoji=False, highlight=False)\n        return len(text)", "                if output:\n                    console.print(output, markup=False, emoji=False, highlight=False)\n        return len(text)", "R19.5")
+V("c13-crop-no-break", "C13", "rich/segment.py", "                    append(cls(text, segment_style))\n                    break\n        else:\n            new_line = line[:]", "                    append(cls(text, segment_style))\n        else:\n            new_line = line[:]", "R13.5")
+V("c01-crop-no-break", "C01", "rich/segment.py", "                    append(cls(text, segment_style))\n                    break\n        else:\n            new_line = line[:]", "                    append(cls(text, segment_style))\n        else:\n            new_line = line[:]", "R1.13")
+V("c12-percentage-finished-constant", "C12", PG, "        if not self.total:\n            return 0.0\n        completed = (self.completed / self.total) * 100.0\n", "        if not self.total:\n            return 0.0\n        if self.finished_time is not None:\n            return 100.0\n        completed = (self.completed / self.total) * 100.0\n", "R12.4")
+V("c03-grey-round-half-up", "C03", "rich/color.py", "                gray = round(l * 25.0)\n", "                gray = int(l * 25.0 + 0.5)\n", "R3.14")
+V("c18-grey-round-half-up", "C18", "rich/color.py", "                gray = round(l * 25.0)\n", "                gray = int(l * 25.0 + 0.5)\n", "R18.10")
+V("c07-tabs-after-divide", "C07", "rich/text.py", '            if "\\t" in line:\n                line.expand_tabs(tab_size)\n            if no_wrap:\n                new_lines = Lines([line])\n            else:\n                offsets = divide_line(str(line), width, fold=wrap_overflow == "fold")\n                new_lines = line.divide(offsets)\n            for line in new_lines:\n', '            if no_wrap:\n                new_lines = Lines([line])\n            else:\n                offsets = divide_line(str(line), width, fold=wrap_overflow == "fold")\n                new_lines = line.divide(offsets)\n            for line in new_lines:\n                if "\\t" in line:\n                    line.expand_tabs(tab_size)\n', "R7.21")
